@@ -247,8 +247,12 @@ func arrayLenOf(g string) int {
 	return -1
 }
 
+// concreteTypes: Go types that the target being translated sees as their modelled struct rather than as the opaque
+// parameter typeTable gives to every other target (did.DID inside package did)
+var concreteTypes = map[string]bool{}
+
 func leanOfGoName(p *pkg, g string) (string, bool) {
-	if l, ok := typeTable[g]; ok {
+	if l, ok := typeTable[g]; ok && !concreteTypes[g] {
 		return l, true
 	}
 	if arrayLenOf(g) >= 0 {
@@ -497,6 +501,44 @@ func (f *fn) expr(e ast.Expr) ex {
 			}
 			return ex{bytesLit(s), true, ty{"Bytes", "string"}}
 		}
+	case *ast.CompositeLit:
+		// T{field: value, …} of a modelled struct with EVERY modelled field given by name
+		t, ok := typeOfExpr(f.p, x.Type)
+		st := structTable[t.gon]
+		if !ok || st == nil || st.fields == nil {
+			fail(x.Pos(), "composite literal of %s", goTypeName(f.p, x.Type))
+		}
+		given := map[string]string{}
+		pure := true
+		for _, el := range x.Elts {
+			kv, ok := el.(*ast.KeyValueExpr)
+			if !ok {
+				fail(el.Pos(), "positional composite literal")
+			}
+			k, ok := kv.Key.(*ast.Ident)
+			if !ok {
+				fail(el.Pos(), "composite literal key")
+			}
+			ft, modelled := st.fields[k.Name]
+			if !modelled {
+				continue // a field outside the model
+			}
+			v := f.expr(kv.Value)
+			if v.t.lean != ft.lean {
+				fail(kv.Pos(), "field %s: %s given, %s declared", k.Name, v.t.lean, ft.lean)
+			}
+			pure = pure && v.pure
+			given[k.Name] = v.code
+		}
+		var parts []string
+		for _, w := range st.want {
+			c, ok := given[w]
+			if !ok {
+				fail(x.Pos(), "composite literal leaves the modelled field %s to its zero value", w)
+			}
+			parts = append(parts, leanIdent(w)+" := "+c)
+		}
+		return ex{"({ " + strings.Join(parts, ", ") + " } : " + st.leanType + ")", pure, t}
 	case *ast.Ident:
 		switch x.Name {
 		case "true", "false":
@@ -789,6 +831,9 @@ func (f *fn) call(x *ast.CallExpr) ex {
 				codes, pure, _ := f.args(x.Args)
 				for _, u := range lc.uses {
 					f.uses[u] = true
+				}
+				if impureLibCalls[name] {
+					return impure(subst(lc.tmpl, "", codes), lc.t)
 				}
 				return ex{subst(lc.tmpl, "", codes), pure, lc.t}
 			}
@@ -1191,6 +1236,21 @@ func (f *fn) stmtList(o *w, list []ast.Stmt) {
 						o.line("%s", r.mon())
 					case 2:
 						f.assignTo(o, as.Lhs[0], as.Tok, r)
+					case 3:
+						// a, b, err := g(...) where g is modelled as returning a pair
+						parts, ok := pairTypes[r.t.lean]
+						if !ok {
+							fail(as.Pos(), "three-value call whose result is not a modelled pair: %s", r.t.lean)
+						}
+						f.ntmp++
+						tmp := fmt.Sprintf("pair%d", f.ntmp)
+						o.line("let %s ← %s", tmp, r.mon())
+						for k := 0; k < 2; k++ {
+							if id, ok := as.Lhs[k].(*ast.Ident); ok && id.Name == "_" {
+								continue
+							}
+							f.assignTo(o, as.Lhs[k], as.Tok, ex{fmt.Sprintf("%s.%d", tmp, k+1), true, parts[k]})
+						}
 					default:
 						fail(as.Pos(), "multi-value call")
 					}
@@ -1375,6 +1435,21 @@ func (f *fn) stmt(o *w, st ast.Stmt) {
 		f.assignTo(o, s.X, token.ASSIGN, ex{"(" + r.code + " " + op + " (1 : Int))", true, r.t})
 	case *ast.DeclStmt:
 		gd := s.Decl.(*ast.GenDecl)
+		if gd.Tok == token.CONST {
+			// a local constant with a value: an immutable local
+			for _, sp := range gd.Specs {
+				vs := sp.(*ast.ValueSpec)
+				if len(vs.Values) != len(vs.Names) {
+					fail(vs.Pos(), "local const without a value")
+				}
+				for i, n := range vs.Names {
+					r := f.expr(vs.Values[i])
+					v := f.declare(n.Name, r.t)
+					o.line("let %s : %s := %s", v.lean, r.t.lean, r.val())
+				}
+			}
+			return
+		}
 		if gd.Tok != token.VAR {
 			fail(s.Pos(), "local declaration %s", gd.Tok)
 		}
@@ -1899,6 +1974,11 @@ func translate(tg *target) (text string, err error) {
 			panic(r)
 		}
 	}()
+	concreteTypes = map[string]bool{}
+	for _, c := range tg.Concrete {
+		concreteTypes[c] = true
+	}
+	defer func() { concreteTypes = map[string]bool{} }()
 	p, e := loadPkg(tg.Dir)
 	if e != nil {
 		return "", e
@@ -2067,8 +2147,8 @@ func main() {
 		if gf.Prelude != "" {
 			b.WriteString(gf.Prelude + "\n")
 		}
-		if gf.Structs {
-			if err := emitStructs(b); err != nil {
+		if len(gf.Structs) > 0 {
+			if err := emitStructs(b, gf.Structs); err != nil {
 				missing = append(missing, "structs: "+err.Error())
 				fmt.Fprintf(b, "-- MISSING structs: %s\n\n", err)
 			}
